@@ -285,6 +285,12 @@ def run(ctx) -> str:
     from . import c05
 
     ctx.guarded("E7", lambda: c05.rule_r12(ctx, "E7"))
+    from . import c09
+
+    ctx.guarded("E8", lambda: c09.rule_n10(ctx, "E8"))
+    from . import c08
+
+    ctx.guarded("E9", lambda: c08.rule_d7(ctx, "E9"))
     ctx.assume("ThreeValuedTruth.all/any/not_ implement Kleene's strong connectives (three_valued_truth.py)")
     ctx.assume("structural predicates and SMT atoms themselves are decided by C04 / C05")
     return EXPLANATION
